@@ -8,6 +8,7 @@ result of a row never depends on the batch (action property RowsIndependent).  E
 The float accuracy clause is computed by the projection with exact rationals (TLA+ has no reals).
 """
 import json
+import os
 import math
 import random
 from fractions import Fraction
@@ -71,6 +72,22 @@ def _file_columns(texts):
     return out[0]
 
 
+_LISTREC = []
+
+
+def _listrec():
+    if not _LISTREC:
+        from bionumpy.bnpdataclass import bnpdataclass
+        from typing import List
+
+        @bnpdataclass
+        class ListRec:
+            name: str
+            values: List[int]
+        _LISTREC.append(ListRec)
+    return _LISTREC[0]
+
+
 def check_vector(v):
     import bionumpy as bnp
     from bionumpy.io.strops import ints_to_strings, int_lists_to_strings, str_to_int, str_to_float, float_to_strings, split
@@ -105,6 +122,31 @@ def check_vector(v):
             if o != ("ok", wj):
                 bad.append({"what": "int_lists_to_strings of a row selection does not join the canonical texts", "tags": {"op": "int_lists_to_strings", "shape": "view-" + form},
                             "vector": v, "expected": wj, "observed": o})
+        # an integer-list column of a FILE, handed out twice by the same buffer (the table and a second table made from it by replacing
+        # another column): the same lists both times, and the table still writes its lines
+        if len(vals) == 2:
+            def list_column_twice():
+                from bionumpy.io.delimited_buffers import get_bufferclass_for_datatype
+                B = get_bufferclass_for_datatype(_listrec(), delimiter="\t")
+                text = "a\t%s\nb\t%s\n" % (",".join(want), want[0])
+                path = os.path.join(os.environ.get("VERIF_RUN_WORK") or "/verif/.work/replay", "c18_%d.tsv" % os.getpid())
+                os.makedirs(os.path.dirname(path), exist_ok=True)
+                with open(path, "w") as f:
+                    f.write(text)
+                t = bnp.open(path, buffer_type=B).read()
+                first = [[int(x) for x in r] for r in t.values.tolist()]
+                r2 = bnp.replace(t, name=t.name)
+                second = [[int(x) for x in r] for r in r2.values.tolist()]
+                out = path + ".out"
+                with bnp.open(out, "w", buffer_type=B) as w:
+                    w.write(r2)
+                return first, second, open(out).read()
+            o = outcome(list_column_twice)
+            n += 1
+            wl_ = [vals, vals[:1]]
+            if o != ("ok", (wl_, wl_, "a\t%s\nb\t%s\n" % (",".join(want), want[0]))):
+                bad.append({"what": "an integer-list column of a file handed out twice by the same buffer differs / the table no longer writes its lines", "tags": {"op": "file-int-list-twice"},
+                            "vector": v, "expected": wl_, "observed": str(o)[:300]})
         # a written matrix of these integers: rows by columns as indexed, however the matrix lies in memory
         if len(vals) == 2:
             from bionumpy.io.matrix_dump import matrix_to_csv
